@@ -24,7 +24,7 @@ const isBarePlus = n => n && n.type === 'BinaryExpression' && n.operator === '+'
 
 // returns [] or a list of {kind, detail}
 function checkSite (call) {
-  const e0 = call.arguments[0]
+  let e0 = call.arguments[0]
   const args = call.arguments.slice(1)
   const problems = []
   let expected = null
@@ -33,6 +33,9 @@ function checkSite (call) {
   else if (e0.type === 'TemplateLiteral') expected = e0.expressions.slice()
   else if (e0.type === 'CallExpression') {
     const c = e0.callee
+    // `...[x, y]` - the spread of an array literal without holes or inner spreads - passes exactly x, y
+    const flat = (list) => list.flatMap(x => x && x.type === 'SpreadElement' && x.argument.type === 'ArrayExpression' && x.argument.elements.every(el => el && el.type !== 'SpreadElement') ? x.argument.elements : [x])
+    e0 = Object.assign({}, e0, { arguments: flat(e0.arguments) })
     if (c.type === 'MemberExpression' && !c.computed && c.property.type === 'Identifier' && (c.property.name === 'call' || c.property.name === 'apply')) {
       const F = c.object
       if (c.property.name === 'call') expected = [F, ...e0.arguments]
